@@ -33,7 +33,7 @@ PROPS = {
         "min_runs": {"quick": 60, "thorough": 1000},
     },
     "C13": {
-        "harnesses": {"c13_scalar": 0.22, "c13_q2": 0.13, "c13_dg": 0.07, "c13_blocked": 0.11, "c13_stokes": 0.05, "c13_stokes_crrt": 0.06, "c13_stokes_mg": 0.07, "c13_app": 0.08, "c13_app_neumann": 0.08, "c13_tm": 0.13},
+        "harnesses": {"c13_scalar": 0.22, "c13_q2": 0.13, "c13_dg": 0.07, "c13_blocked": 0.11, "c13_stokes": 0.05, "c13_stokes_crrt": 0.06, "c13_stokes_mg": 0.07, "c13_app": 0.08, "c13_app_neumann": 0.08, "c13_tm": 0.09, "c13_tm.race": 0.04},
         "budget_s": {"quick": 60, "thorough": 1200},
         "min_runs": {"quick": 40, "thorough": 1000},
     },
